@@ -1260,4 +1260,51 @@ def remembered_points_current(repo: Repo, prop: str = PROP, rule: str = "C09.REM
 remembered_points_current.rule_id = "C09.REMEMBERED-POINTS-CURRENT"
 
 
-RULES = [arc_sense, purity, no_alias_store, affine_balance, unit_normal, direction_parts, transform_equals_methods, transform_routing, linear_parts, deep_copy, mirror_matrix, no_shared_parts, arguments_untouched, super_forwarding, inplace_then_read, invalidate_last, live_lengths, private_coordinates, live_arrays, displacement_copied, average_axis, unit_axis, mirror_sense, geometry_role_free, applied_once, shear_unit_direction, length_direction, remembered_points_current]
+def shear_sign(repo: Repo, prop: str = PROP, rule: str = "C09.SHEAR-SIGN") -> RuleRun:
+    """A shear by an angle beyond a right angle (or a negative one) slants the other way: the SIGN of tan(angle) must reach the
+    displacement. If every use of `angle` in a shear method that moves coordinates sits under an even function (abs, a square,
+    cos), shear(angle) == shear(pi - angle): the outer mitre of an L joint is cut like the inner one and the two branches no
+    longer share their vertices (parity as an information-flow fact, same device as C08.SIGN-FLOWS)."""
+    from ..model import parent as _parent
+    from .c08 import EVEN
+
+    r = RuleRun(prop, rule, floor=2, what="in every shear() that moves coordinates the sign of tan(angle) reaches the displacement (not every use of `angle` is under an even function)")
+    n = 0
+    for fn in sorted(repo.all_functions(), key=lambda f_: f_.qualname):
+        if fn.name != "shear" or fn.cls is None or "angle" not in fn.params or "direction" not in fn.params:
+            continue
+        if not any(isinstance(b, ast.BinOp) and isinstance(b.op, ast.Mult) and any(isinstance(x, ast.Name) and x.id == "direction" for x in (b.left, b.right)) for b in ast.walk(fn.node)):
+            continue
+        n += 1
+        uses = []
+        for x in ast.walk(fn.node):
+            if isinstance(x, ast.Name) and x.id == "angle" and isinstance(x.ctx, ast.Load):
+                even = False
+                p_ = x
+                while p_ is not None and p_ is not fn.node:
+                    q = _parent(p_)
+                    if isinstance(q, ast.Call) and any(p_ is a for a in q.args) and (attr_chain(q.func) or "").split(".")[-1] in EVEN:
+                        even = True
+                    if isinstance(q, ast.BinOp) and isinstance(q.op, ast.Pow) and p_ is q.left and isinstance(q.right, ast.Constant) and q.right.value in (2, 4):
+                        even = True
+                    p_ = q
+                uses.append((x, even))
+        r.require(bool(uses), f"{fn.qualname} does not use its angle")
+        odd = [u for u in uses if not u[1]]
+        r.check(
+            bool(odd),
+            fn,
+            f"{fn.qualname}: {len(odd)} use(s) of `angle` keep its sign",
+            f"{fn.qualname}: every use of `angle` is under an even function ({', '.join(sorted({ast.unparse(_parent(_parent(u[0])))[:40] for u in uses}))}): the displacement cannot depend on the sign of tan(angle), "
+            "so a shear by an angle beyond 90 degrees (the outer mitre of an L joint: half-angles 3pi/4 and -pi/4) slants the face like the inner one and the branches of the joint do not share their common vertices",
+            uses[0][0],
+            key="angle-sign",
+        )
+    r.require(n >= 2, f"only {n} shear methods that move coordinates found")
+    return r
+
+
+shear_sign.rule_id = "C09.SHEAR-SIGN"
+
+
+RULES = [arc_sense, purity, no_alias_store, affine_balance, unit_normal, direction_parts, transform_equals_methods, transform_routing, linear_parts, deep_copy, mirror_matrix, no_shared_parts, arguments_untouched, super_forwarding, inplace_then_read, invalidate_last, live_lengths, private_coordinates, live_arrays, displacement_copied, average_axis, unit_axis, mirror_sense, geometry_role_free, applied_once, shear_unit_direction, length_direction, remembered_points_current, shear_sign]
